@@ -13,7 +13,7 @@ import ast
 
 from ..model import AnalysisError, FuncInfo, bind_args, call_name, last_attr, names_in, unparse, walk_no_nested
 from ..prov import Prov
-from ..sites import concrete_overrides, rw_sites, site_writes
+from ..sites import concrete_overrides, rw_sites, site_writes, apply_fn, worker_fn
 
 BASE = "codemodder.codemods.base_codemod.BaseCodemod"
 CTX = "codemodder.context.CodemodExecutionContext"
@@ -86,7 +86,7 @@ def rule_fileset_source(ctx, rep):
                   "returned files are drawn from " + ", ".join(f"`{unparse(b)[:50]}`" for b in bad)
                   + (" instead of context.find_and_fix_paths" if kind == "find-and-fix" else " instead of context.filter_paths(<files_to_analyze subset>)")
                   + ": the user's include/exclude patterns (or default excludes) are bypassed")
-    ap = ctx.prog.func(BASE + "._apply")
+    ap = apply_fn(ctx)
     r = ctx.resolver(ap)
     maps = [n for n in walk_no_nested(ap.node) if isinstance(n, ast.Call) and last_attr(n.func) == "map" and len(n.args) >= 2]
     ok = False
@@ -144,7 +144,7 @@ def rule_write_target(ctx, rep):
     )
     rep.check("R-WRITE-TARGET", wi.qname, wi.loc(), ok, "writer-path", "DependencyWriter.path is not derived from dependency_store.file")
     # file_context.file_path <- filename parameter of _process_file
-    pf = ctx.prog.func(BASE + "._process_file")
+    pf = worker_fn(ctx)
     fc = ctx.prog.cls("codemodder.file_context.FileContext")
     ok = False
     for n in walk_no_nested(pf.node):
